@@ -225,7 +225,8 @@ def all_cases(tier, seed):
         for special in ('redefine-same-list', 'redefine-global-target',
                         'env-two-token-flags', 'env-iquote-same-dir',
                         'pch-in-shared-library', 'pch-in-dual-library',
-                        'libdir-repeated', 'toolchain-list-options'):
+                        'libdir-repeated', 'toolchain-list-options',
+                        'env-hash-in-flags'):
             cases.append({'compiler': cname, 'lang': lang, 'cenv': cenv,
                           'placement': 'target', 'envflags': False,
                           'opts': [], 'special': special})
@@ -406,6 +407,11 @@ def check_case(rec, case):
             extra['CFLAGS' if lang == 'c' else 'CXXFLAGS'] = \
                 '-O2 -DFROM_ENV=5 -DMYDEF=13'
             extra['CPPFLAGS'] = '-DFROM_CPP=6'
+        if case.get('special') == 'env-hash-in-flags':
+            # `#` inside a word of a flags variable is an ordinary character
+            extra['CPPFLAGS'] = '-DTAG=x#y -DFROM_CPP=6'
+            extra['CFLAGS' if lang == 'c' else 'CXXFLAGS'] = \
+                '-DTAG2=#z -DFROM_ENV=5'
         if case.get('special') == 'env-iquote-same-dir':
             extra['CPPFLAGS'] = "-iquote '{}'".format(
                 os.path.join(tmp, 'sdk', 'include'))
@@ -495,6 +501,13 @@ def check_case(rec, case):
             rec.fail('option/no-effect/' + sp, '{}: include_dir() of a '
                      'directory that CPPFLAGS names with -iquote: INC={!r}'
                      .format(case['compiler'], out.get('INC')), jcase)
+        if sp == 'env-hash-in-flags' and (
+                out.get('FROM_ENV') != '5' or out.get('FROM_CPP') != '6'):
+            rec.fail('option/env-flags-lost/hash', '{}: flags after a word '
+                     'containing `#` in CPPFLAGS/CFLAGS were lost: {}; build '
+                     'output: {}'.format(case['compiler'], {
+                         k: out.get(k) for k in ('FROM_ENV', 'FROM_CPP')},
+                         text.strip()[-300:]), jcase)
         if sp == 'toolchain-list-options' and (
                 out.get('MYSTR') != 'hi there' or out.get('MYDEF') != '42' or
                 out.get('FROM_ENV') != '5'):
